@@ -1,58 +1,79 @@
 /-
   Model/Threads.lean — the interning constructors under concurrency (C20).
 
-  One key of one intern table (`Dimension._known`, `Prefix._known`, `Unit._known`, …; distinct keys
-  do not interact: a dict get/set of one key is atomic under the GIL).  Each thread runs the program
-  of `Cls(key)`:
+  One key of one intern registry; distinct keys do not interact (a dict get/set of one key is atomic
+  under the GIL).  Each thread runs the program of `Cls(key, …)`, i.e. `type.__call__`:
 
-      [acquire]  look the key up  —hit→ return it
-                                  —miss→ allocate a new object, insert it, (initialise,) return it
-      [release]
+      __new__ :  look the key up in the registry  —hit→ return the registered object
+                                                  —miss→ allocate a new object [and register it]
+      __init__:  initialise the object [and register it]
 
-  `locked = true` is the program after the `fix:` commit (metaclass `_Interned.__call__` holds
-  `_interning` around lookup + creation + initialisation); `locked = false` is the check-then-insert
-  program without it.  A schedule is a list of thread ids; each entry lets that thread take one step.
+  Where the object is registered depends on the class and the kind of object (`regAtInit`):
+  * `false` — `Dimension`, `Prefix`, `Logarithm`, non-base `Unit`: the registry consulted is
+    `cls._known`, written by `__new__` right after the allocation;
+  * `true`  — a base `Unit` is found through `Unit._by_name[name]`, which is written by
+    `__init__` (→ `alias`): lookup and registration are in DIFFERENT methods.
+
+  `lock`: `.none` — no protection (the pinned code before the `fix:` commit);
+          `.newOnly` — a lock around `__new__` only;
+          `.call` — the metaclass `_Interned.__call__` holds `_interning` around `__new__` AND
+                    `__init__` (the code after the `fix:` commit).
+  A schedule is a list of thread ids; each entry lets that thread take one step.
 -/
 namespace Measured
 namespace Threads
 
-inductive PC | acquire | check | allocInsert | release | done
+inductive PC | acquire | check | alloc | releaseNew | init | release | done
+  deriving DecidableEq, Repr
+
+inductive Lock | none | newOnly | call
   deriving DecidableEq, Repr
 
 structure TS where
   pc  : PC := .acquire
-  ret : Option Nat := none      -- object returned (= allocation index)
+  obj : Option Nat := none      -- the object this thread holds (allocated or found)
+  ret : Option Nat := none      -- object returned
+  fresh : Bool := false         -- did this thread allocate `obj` itself?
   deriving Repr
 
 structure Sh where
   lock  : Option Nat := none    -- holder of `_interning`
-  known : Option Nat := none    -- the intern-table entry of the key under test
+  reg   : Option Nat := none    -- the registry entry of the key under test
   next  : Nat := 0              -- allocator: number of objects ever created for the key
   thr   : Nat → TS := fun _ => {}
 
 def upd (f : Nat → TS) (t : Nat) (v : TS) : Nat → TS := fun i => if i = t then v else f i
 
-def step (locked : Bool) (s : Sh) (t : Nat) : Sh :=
+def step (lk : Lock) (regAtInit : Bool) (s : Sh) (t : Nat) : Sh :=
   let me := s.thr t
   match me.pc with
   | .acquire =>
-      if locked then
-        match s.lock with
+      if lk = .none then { s with thr := upd s.thr t { me with pc := .check } }
+      else match s.lock with
         | none => { s with lock := some t, thr := upd s.thr t { me with pc := .check } }
         | some _ => s                                   -- blocked: no-op
-      else { s with thr := upd s.thr t { me with pc := .check } }
-  | .check => match s.known with
-      | some o => { s with thr := upd s.thr t { pc := .release, ret := some o } }
-      | none   => { s with thr := upd s.thr t { me with pc := .allocInsert } }
-  | .allocInsert =>
-      { s with known := some s.next, next := s.next + 1,
-               thr := upd s.thr t { pc := .release, ret := some s.next } }
+  | .check => match s.reg with
+      | some o => { s with thr := upd s.thr t { me with pc := .releaseNew, obj := some o } }
+      | none   => { s with thr := upd s.thr t { me with pc := .alloc } }
+  | .alloc =>
+      { s with next := s.next + 1,
+               reg := if regAtInit then s.reg else some s.next,
+               thr := upd s.thr t { me with pc := .releaseNew, obj := some s.next, fresh := true } }
+  | .releaseNew =>
+      -- end of `__new__`: a lock around `__new__` only is released here
+      if lk = .newOnly then { s with lock := none, thr := upd s.thr t { me with pc := .init } }
+      else { s with thr := upd s.thr t { me with pc := .init } }
+  | .init =>
+      -- `__init__`: returns at once for an initialised object; otherwise initialises and (base
+      -- units) registers the name
+      { s with reg := if regAtInit && me.fresh then me.obj else s.reg,
+               thr := upd s.thr t { me with pc := .release } }
   | .release =>
-      if locked then { s with lock := none, thr := upd s.thr t { me with pc := .done } }
-      else { s with thr := upd s.thr t { me with pc := .done } }
+      if lk = .call then { s with lock := none, thr := upd s.thr t { me with pc := .done, ret := me.obj } }
+      else { s with thr := upd s.thr t { me with pc := .done, ret := me.obj } }
   | .done => s
 
-def run (locked : Bool) (s : Sh) (sched : List Nat) : Sh := sched.foldl (step locked) s
+def run (lk : Lock) (regAtInit : Bool) (s : Sh) (sched : List Nat) : Sh := sched.foldl (step lk regAtInit) s
 
 end Threads
 end Measured
